@@ -440,3 +440,16 @@ func c08Twin(prop string) {
 //verif:cover delivered-some;delivered-none;fin-consumed;duplicate-dropped
 //verif:timeout 3000
 func VH_C08_receiver_step_delivers_in_order_prefix_3queued() { c08ReceiverStep(3) }
+
+// C09: a tube that reached "closed" too early frees its identifier while the
+// peer's old tube is still retransmitting - the next tube with that identifier
+// would receive the old tube's bytes. The FIN-ordering obligation is registered
+// here as well.
+//
+//verif:prop C09
+//verif:bounds as VH_C08_fin_overtaking_data_does_not_end_the_stream
+//verif:cover in-order-fin;overtaking-fin
+//verif:timeout 600
+func VH_C09_an_overtaking_fin_never_frees_the_tube_identifier_early() {
+	VH_C08_fin_overtaking_data_does_not_end_the_stream()
+}
